@@ -182,7 +182,7 @@ func ValidateParameter(ctx context.Context, input *RequestValidationInput, param
 	}
 
 	// Set default value if needed
-	if !options.SkipSettingDefaults && value == nil && schema != nil {
+	if !options.SkipSettingDefaults && value == nil && !found && schema != nil {
 		value = schema.Default
 		for _, subSchema := range schema.AllOf {
 			if subSchema.Value.Default != nil {
